@@ -7,8 +7,15 @@
     dataclass schemas (gen/C20_records.v, harness/translate/c20_records.py); lookup-name enums: generated
     exhaustive theorems; LLSD flavours: SchemaBase.to_llsd/from_llsd per-node dict round-trip (Asset/Llsd.v,
     gen/C20_llsd.v).
-(C) whole InventoryModels incl. the AIS overrides, wearables, animations, mesh: IMPL-LEVEL ORACLE on the real
+(C) whole InventoryModels incl. the AIS overrides, wearables: IMPL-LEVEL ORACLE on the real
     code only (harness/translate/c20_codecs.py), no theorem is claimed for them.
+(D) animations: PROOF at the raw level (Asset/Anim.v, AnimProofs.v: parse(write a) = a for every well-formed a, both
+    versions, exact consumption, every wf clause refuted when dropped) + extracted parse_anim/write_anim vs the real
+    llanim.Animation (harness/translate/c20_anim.py); the float/quantiser layer stays with C10 and with oracle (C).
+(E) mesh container: PROOF of the segment layout (Asset/MeshLayout.v, MeshLayoutProofs.v: sort order, running-sum
+    offset table, slices, parse(serialize m) under the header-codec and zlib oracle laws) + extracted
+    write_layout/parse_segments vs the real LLMeshSerializer at container level (harness/translate/c20_mesh.py);
+    segment contents (numpy/quantised arrays, LLSD trees, zlib) stay with oracle (C).
 """
 from __future__ import annotations
 
@@ -21,7 +28,7 @@ from harness.common.framework import CorrResult, VERIF
 
 PROP_ID = "C20"
 COQ_PROPS = "theories/Props/C20.v"
-COQ_EXTRA = ["gen/C20_gen.v", "gen/C20_schema.v", "gen/C20_records.v", "gen/C20_llsd.v"]
+COQ_EXTRA = ["gen/C20_gen.v", "gen/C20_schema.v", "gen/C20_records.v", "gen/C20_llsd.v", "gen/C20_mesh.v"]
 EXTRACT = ("theories/Extract/ExC20.v", "c20_driver.ml")
 EXTRACT_Z = True
 TRUSTED = [
@@ -59,9 +66,30 @@ TRUSTED = [
     "InventoryItem.to_llsd/from_llsd (agent_id, link items) and InventoryModel.from_llsd/to_llsd are NOT modelled (oracle (C)); "
     "LLSD wire serialisation (XML/binary/notation) is out of scope (C12)",
     "(C) NOT PROVED, implementation-level oracle only: whole InventoryModels through legacy text / legacy LLSD / AIS LLSD (incl. "
-    "the AIS overrides), Wearables, llanim Animations (both versions), mesh LLMeshSerializer round-trips are checked by running "
-    "the real code on generated values "
-    "(harness/props/c20_codecs.py); zlib, numpy, llsd (binary/XML) and the serialization spec library are exercised, not modelled",
+    "the AIS overrides), Wearables, and - at the level of the Python objects, i.e. including the float/quantiser layer and the "
+    "segment contents - llanim Animations (both versions) and mesh LLMeshSerializer round-trips are checked by running the real "
+    "code on generated values (harness/translate/c20_codecs.py); zlib, numpy, llsd (binary/XML) are exercised, not modelled",
+    "(D) animations, modelled by hand (Asset/Anim.v): the spec tree of llanim.Animation/Joint/RotKeyframe/PosKeyframe/Constraint as "
+    "evaluated by serialization.py (Dataclass/Template field order, U16/S32/U32/U8/F32 primitives little-endian, CStr = "
+    "BytesTerminated with eof_terminates, StrFixed(16) = NUL padding + rstrip, Collection(U32|S32) incl. range(negative) = empty, "
+    "Tuple, MultiDictAdapter as the ordered item list, ContextSwitch on ctx._root version with KeyError for unknown versions, "
+    "IntEnum non-strict = identity on the wire integer). RAW LEVEL: floats are their 32-bit patterns, quantised keyframe numbers "
+    "their wire integers, a str is its UTF-8 bytes (utf8_valid models the strict decoder; str <-> valid UTF-8 being a bijection is "
+    "assumed of CPython's codec). PROVED: C20_anim_roundtrip for all wf_anim values with exact consumption, wf_anim decidable, every "
+    "clause refuted when dropped (C20_anim_wf_refuted, C20_anim_too_long_refused), the byte-count shortcut of the count loops is "
+    "faithful (C20_anim_count_guard). TIED: 'animation' suite (both directions, accept/reject alike on truncated/mutated input). "
+    "NOT covered at this level (C10 / oracle (C)): struct 'f' float<->double conversion incl. signalling NaNs, QuantizedTime for "
+    "durations outside (0,inf) (duration 0: every time collapses to 0), Vector3U16 quantisation, PackedQuat's recomputed W, values "
+    "off the quantisation grid",
+    "(E) mesh container, modelled by hand (Asset/MeshLayout.v): LLMeshSerializer.serialize (missing-header check, sorted(keys, "
+    "key=_segment_sort) as a stable insertion sort with the KNOWN_SEGMENTS ranks - gen/C20_mesh.v checks the constant against the "
+    "live class -, _is_segment_header, segments.get(key, raw_segments.get(key)), bytes written as they are, offset/size rewritten "
+    "in place, allow_invalid_segments) and deserialize (pass-EOF test, seek incl. IOError, Python slice for a negative size, padding "
+    "skip, zlib.error vs other exceptions, dict assignment, include_raw_segments). ORACLES = premises of the theorems, answered by "
+    "the real functions in the 'mesh container' suite: binary LLSD header codec (law dec(enc h ++ rest) = (h, rest); C12 proves it "
+    "for its LLSD model), zip_llsd/unzip_llsd + SEGMENT_TEMPLATES (law inflate k (deflate k s) = s), dict keys distinct. PROVED: "
+    "C20_mesh_order, C20_mesh_slices, C20_mesh_roundtrip(_general). parse_segment_contents=False is the same model with a "
+    "different inflate oracle; the contents of the segments are not modelled",
 ]
 
 CORPUS = os.path.join(VERIF, "corpus", "C20")
@@ -425,6 +453,10 @@ Proof. intros turbo payload l st Hl Hr. exact (xfer_done_iff turbo live_max_chun
     nl = cr.emit_llsd(os.path.join(VERIF, "coq", "gen", "C20_llsd.v"))
     rec_obls.append({"name": "gen/C20_llsd.v: %d LLSD key tables (5 classes x legacy/ais, from cls._get_fields_dict(llsd_flavor)) satisfy "
                              "wf_keys and llsd_roundtrip is instantiated at each" % nl, "detail": "key renaming read from the live code"})
+    from harness.translate import c20_mesh as cm
+    nk_mesh = cm.emit(os.path.join(VERIF, "coq", "gen", "C20_mesh.v"))
+    rec_obls.append({"name": "gen/C20_mesh.v: the model's known_segments equals the live LLMeshSerializer.KNOWN_SEGMENTS (%d names)" % nk_mesh,
+                     "detail": "serialization order constant read from the live class"})
     return rec_obls + [{"name": "gen/C20_gen.v: 4 <= MAX_CHUNK_SIZE (=%d) and the xfer theorems instantiated at it" % m, "detail": "live value"},
             {"name": "gen/C20_schema.v: %d live schema keys satisfy key_ok, %d live lookup-name tokens satisfy val_ok" % (nk, nt),
              "detail": "dataclasses.fields of InventoryItem/Category/Object/Permissions/SaleInfo + lookup tables"}]
@@ -793,6 +825,9 @@ def correspond_llsd(ctx):
 
 
 CODEC_KINDS = ("inventory", "enum", "wearable", "anim", "mesh")
+# cases of the raw-level animation / mesh container suites: the real code's observation is compared with the model's
+# observation stored in the case (so a replay needs no driver)
+MODEL_VS_CODE_KINDS = ("anim-parse", "anim-write", "utf8", "mesh-layout", "mesh-parse", "mesh-sort")
 
 
 def correspond(ctx):
@@ -804,6 +839,10 @@ def correspond(ctx):
     results.append(correspond_records(ctx))
     results.append(correspond_llsd(ctx))
     results.append(correspond_codecs(ctx, [c for c in corpus if c.get("kind") in CODEC_KINDS]))
+    from harness.translate import c20_anim as ca
+    from harness.translate import c20_mesh as cm
+    results.append(ca.correspond(ctx, CorrResult))
+    results.append(cm.correspond(ctx, CorrResult))
     return results
 
 
@@ -812,6 +851,10 @@ def search(ctx, hints):
         v = h.get("impl_violation")
         if v:
             return v
+    for h in hints:
+        d = h.get("disagreement")
+        if d and d.get("kind") in MODEL_VS_CODE_KINDS and "model_line" in d:
+            return d
     r = correspond_transfer(ctx)
     if r.impl_violations:
         return r.impl_violations[0]
@@ -843,6 +886,12 @@ def replay(ctx, case):
     if kind in CODEC_KINDS:
         from harness.translate import c20_codecs as cc
         return cc.replay_case(case)
+    if kind in ("anim-parse", "anim-write", "utf8"):
+        from harness.translate import c20_anim as ca
+        return ca.replay_case(case)
+    if kind in ("mesh-layout", "mesh-parse", "mesh-sort"):
+        from harness.translate import c20_mesh as cm
+        return cm.replay_case(case)
     if kind == "record-text":
         import io
         from harness.translate import c20_records as cr
